@@ -126,6 +126,7 @@ func ruleERR1(c *Ctx) []Ob {
 var allowedSentinels = map[string]string{
 	"/internal.ErrStopIteration":                    "iteration stop requested by the consumer",
 	"github.com/dgraph-io/badger/v4.ErrKeyNotFound": "adapter maps not-found to (nil, nil)",
+	"io.EOF": "end of input reported by a reader or decoder: the expected outcome of reading to the end, not a failure",
 }
 
 func (c *Ctx) sentinelAllowed(target ssa.Value) bool {
